@@ -46,6 +46,11 @@ func c24sScenarios(thorough bool) [][][]c24sCall {
 		{{b(true, "x", "y")}, {b(true, "y", "x", "y")}},
 		{{b(false, "a", "b")}, {b(true, "a", "b")}, {b(false, "b")}},
 		{{b(false, "")}, {b(false, "", "é")}},
+		// a key of its own FIRST, then a key both batches create (the re-check under the write lock must
+		// look at every key of the batch, not stop at the first one that is still missing)
+		{{b(true, "u1", "c")}, {b(true, "u2", "c")}},
+		{{b(false, "u1", "c")}, {b(false, "u2", "c")}},
+		{{b(true, "c", "u1")}, {b(true, "u2", "c", "u3")}},
 	}
 	if thorough {
 		sc = append(sc,
